@@ -124,7 +124,7 @@ def check_tokenizer(ctx):
     lcfg = cfg_of(lt.node)
     heads = [n for n in lcfg.nodes if n.kind == "test" and n.label == "while"]
     rec = [n for n in lcfg.real_nodes() if any(c == "self._process_tokens" for c in n.call_names())]
-    ok = len(rec) == 1 and any(rules.expand(lt.node, n.ast) == "elements.peek()[0] == '>'" for n in lcfg.nodes if n.kind == "test")
+    ok = len(rec) == 1 and any({a for a, _ in cnd.canon(rules.expand_ast(lt.node, n.ast), True)} == {"elements.peek()[0] == '>'"} for n in lcfg.nodes if n.kind == "test")
     ctx.ob("C19.G1", lt.qualname, ok, "a list body is a sequence of elements ended by '>' (each recursion consumes its element)" if ok else "list members are not read until the closing '>'", key="list-loop", where=lt.where)
     # the optional list name: the first element of a list body is its name exactly when it is not a bracket
     names = [n for n in lcfg.real_nodes() if any(call_name(c) == "SFDLToken" and c.args and norm(c.args[0]) == "SFDLTokenType.LIST_NAME" for c in calls_in(n.ast))]
@@ -258,8 +258,12 @@ def check_keys(ctx):
     names = {}
     for n in acfg.real_nodes():
         if isinstance(n.ast, ast.Assign) and norm(n.ast.targets[0]) == "self.name":
-            conds = [(norm(t), v) for t, v in acfg.dominating_conditions(n)]
-            names[norm(n.ast.value)] = conds
+            # the value stored, through a local if there is one, with the conditions under which it is chosen
+            for value, conds in rules.reaching_values(ai.node, acfg, n, n.ast.value):
+                facts = set()
+                for t, v in conds:
+                    facts |= cnd.canon(t, v)
+                names[norm(value)] = sorted(facts)
     ok = names.get("List.get_name_from_format(data_format)") == [("isinstance(data_format, list)", True)] and "data_format.__name__" in names
     ctx.ob("C19.P2", ai.qualname, ok, "an open list is keyed by its member record's name or its data item's name" if ok else f"Array names are derived as {names}", where=ai.where)
 
